@@ -411,7 +411,7 @@ func (rw *rewriter) syncMethod(call *ast.CallExpr) (typ, method string, recv ast
 		return
 	}
 	typ = named.Obj().Name()
-	if typ != "Mutex" && typ != "RWMutex" && typ != "WaitGroup" && typ != "Pool" && typ != "Once" {
+	if typ != "Mutex" && typ != "RWMutex" && typ != "WaitGroup" && typ != "Pool" && typ != "Once" && typ != "Cond" {
 		return
 	}
 	method = f.Name()
@@ -489,6 +489,12 @@ func (rw *rewriter) callExpr(e *ast.CallExpr) ast.Expr {
 			case "WaitGroup.Add":
 				rw.count("sync-WGAdd")
 				return rw.call("WGAdd", recv, rw.expr(e.Args[0], ctxR), rw.site(e))
+			case "Cond.Wait":
+				fn = "CondWait"
+			case "Cond.Signal":
+				fn = "CondSignal"
+			case "Cond.Broadcast":
+				fn = "CondBroadcast"
 			case "Once.Do":
 				rw.count("sync-OnceDo")
 				return rw.call("OnceDo", recv, rw.expr(e.Args[0], ctxR), rw.site(e))
